@@ -14,6 +14,7 @@
 package http
 
 import (
+	"math"
 	"bytes"
 	"context"
 	"io"
@@ -142,7 +143,11 @@ func (h *Handler) ServeHTTP(response http.ResponseWriter, request *http.Request)
 	body := request.Body
 	if request.ContentLength < 0 && body != nil {
 		// no declared length (chunked): the limit applies to the bytes actually received
-		body = ioutil.NopCloser(io.LimitReader(body, int64(h.Service.MaxRequestLength)+1))
+		limit := int64(h.Service.MaxRequestLength)
+		if limit < math.MaxInt64 {
+			limit++ // one byte more than allowed tells an oversized body from one at the limit
+		}
+		body = ioutil.NopCloser(io.LimitReader(body, limit))
 	}
 	data, err := readAll(body, request.ContentLength)
 	if err != nil {
